@@ -49,6 +49,7 @@ QUICK = [
     (("TP", dict(T=2)), 2),
     (("TQ", dict(T=2)), 2),  # agents with 3 and 1 admissible rows
     (("TQ", dict(T=1)), 4),
+    (("TR", dict(T=2)), 2),  # two filters that disagree
 ]
 THOROUGH = QUICK + [
     (("TD", dict(T=2, nw=3)), 2),
